@@ -80,13 +80,56 @@ def prows_of(case):
     return [{p: [Fr(x) for x in v] for p, v in r.items()} for r in case["prows"]]
 
 
+# ---- variable names.  The generator (geomgen) writes every expression with the one-character names x, y, z, s, t, D; the
+# LIBRARY objects of a case are built with the names of the case's naming scheme (multi-character names, names that share
+# characters, names with digits), and the parameter columns in the case's column order.  Model side, partitions and replay
+# files keep the canonical names; `nm` translates at the boundary to the library.
+NAME_SCHEMES = [
+    {},
+    {"s": "tau", "t": "t", "D": "ta"},                                   # 't', 'ta', 'tau': names sharing characters
+    {"s": "x1", "y": "x2", "t": "mu", "D": "D0"},                        # digits; 'x' and 'x1', 'x2'
+    {"x": "pos", "y": "yy", "z": "zzz", "s": "time", "t": "tt", "D": "Dd"},
+    {"s": "ss", "t": "s", "D": "t"},                                     # a name that is another variable's canonical name
+]
+for _sch in NAME_SCHEMES:
+    for _k, _v in _sch.items():
+        DIM.setdefault(_v, DIM[_k])
+_CTX = dict(names={}, rev=False)
+
+
+def set_naming(case):
+    _CTX["names"] = dict(case.get("names") or {})
+    _CTX["rev"] = bool(case.get("param_order_reversed"))
+
+
+def nm(v):
+    return _CTX["names"].get(v, v)
+
+
+def rename_term(t):
+    k = t[0]
+    if k == "c":
+        return t
+    if k == "v":
+        return ("v", nm(t[1]), t[2])
+    if k == "n":
+        return ("n", rename_term(t[1]))
+    return (k, rename_term(t[1]), rename_term(t[2]))
+
+
+def rename_node(node):
+    return Node(node.kind, nm(node.var) if node.var else node.var, [PF([rename_term(t) for t in p.terms]) for p in node.pfs],
+                [rename_node(k) for k in node.kids], dict(node.flags))
+
+
 def mk_params(tp, names, prows):
     import torch
     if not names or not prows:
         return tp.spaces.Points.empty()
+    names = list(reversed(names)) if _CTX["rev"] else list(names)
     sp = None
     for p in names:
-        s = tp.spaces.R1(p)
+        s = tp.spaces.R1(nm(p))
         sp = s if sp is None else sp * s
     return tp.spaces.Points(torch.tensor([[float(r[p][0]) for p in names] for r in prows], dtype=torch.float32), sp)
 
@@ -413,13 +456,18 @@ def fibre_volume_poly(a, env, svar):
 
 
 def build_tp(node, tp):
+    """the library object of an expression, with the variable names of the case's naming scheme"""
+    return _build_tp(rename_node(node), tp)
+
+
+def _build_tp(node, tp):
     """like Node.to_tp; flagged unions / cuts are built with the classes of their own modules (tp.domains does not
     export UnionDomain / CutDomain, which geomgen's to_tp assumes)"""
     k = node.kind
     D = tp.domains
     if k in PRIMS:
         return node.to_tp(tp)
-    kids = [build_tp(x, tp) for x in node.kids]
+    kids = [_build_tp(x, tp) for x in node.kids]
     if k == "union":
         from torchphysics.problem.domains.domainoperations.union import UnionDomain
         return UnionDomain(kids[0], kids[1], disjoint=True) if node.flags.get("disjoint") else kids[0] + kids[1]
@@ -798,8 +846,9 @@ def make_cases(ctx):
     cases = []
 
     def add(kind, node, params, prows, **kw):
+        sch = rng.choice(NAME_SCHEMES) if rng.random() < 0.6 else {}
         cases.append(dict(id=len(cases), kind=kind, dom=node.describe(), params=params, prows=prows_json(prows),
-                          seed=rng.randint(0, 2 ** 31 - 1), **kw))
+                          seed=rng.randint(0, 2 ** 31 - 1), names=sch, param_order_reversed=rng.random() < 0.3, **kw))
 
     def pr():
         params = rng.choice([[], ["t"], ["t"], ["t", "D"]])
@@ -915,7 +964,7 @@ def coords_of(node, res, n_rows):
     """columns of the node's own coordinates as float64 array (N, dim), in the node's variable order"""
     cols = []
     for v in node.vars():
-        cols.append(res.coordinates[v].detach().double().numpy().reshape(n_rows, -1))
+        cols.append(res.coordinates[nm(v)].detach().double().numpy().reshape(n_rows, -1))
     return np.concatenate(cols, axis=1)
 
 
@@ -991,7 +1040,7 @@ def run_tape(tp, case, lines):
     prows = prows_of(case)
     params = mk_params(tp, case["params"], prows)
     n = case["n"]
-    dom = node.to_tp(tp)
+    dom = build_tp(node, tp)
     torch.manual_seed(case["seed"])
     with Tape() as tape:
         res = common.call_with_timeout(TIMEOUT, lambda: dom.sample_random_uniform(n=n, params=params))
@@ -1084,7 +1133,7 @@ def row_env_json(case, i):
 def run_law(tp, rep, case):
     import torch
     node = geomgen.from_json(case["dom"])
-    dom = node.to_tp(tp)
+    dom = build_tp(node, tp)
     torch.manual_seed(case["seed"])
     Xs = sample_big(tp, dom, node, case, case["api"], case["N"])
     law_tests(rep, case, node, Xs)
@@ -1102,7 +1151,7 @@ def run_csg(tp, rep, case):
     import torch
     node = geomgen.from_json(case["dom"])
     dim = DIM[node.vars()[0]]
-    dom = node.to_tp(tp)
+    dom = build_tp(node, tp)
     torch.manual_seed(case["seed"])
     Xs = sample_big(tp, dom, node, case, case["api"], case["N"])
     g = 6 if dim == 2 else 12
@@ -1136,7 +1185,7 @@ def run_sel(tp, rep, case, lines, posts):
     log = []
     from torchphysics.problem.domains.domainoperations.cut import CutDomain
     from torchphysics.problem.domains.domainoperations.intersection import IntersectionDomain
-    a, b = Proxy(node.kids[0].to_tp(tp), log, "A"), Proxy(node.kids[1].to_tp(tp), log, "B")
+    a, b = Proxy(build_tp(node.kids[0], tp), log, "A"), Proxy(build_tp(node.kids[1], tp), log, "B")
     dom = CutDomain(a, b) if node.kind == "cut" else IntersectionDomain(a, b)
     torch.manual_seed(case["seed"] + 2)
     res = common.call_with_timeout(TIMEOUT, lambda: dom.sample_random_uniform(n=n, params=params))
@@ -1198,7 +1247,7 @@ def run_union(tp, rep, case, lines, posts):
     Proxy = build_proxy_class(tp)
     log = []
     from torchphysics.problem.domains.domainoperations.union import UnionDomain
-    pdom = UnionDomain(Proxy(a.to_tp(tp), log, "A"), Proxy(b.to_tp(tp), log, "B"), disjoint=bool(node.flags.get("disjoint")))
+    pdom = UnionDomain(Proxy(build_tp(a, tp), log, "A"), Proxy(build_tp(b, tp), log, "B"), disjoint=bool(node.flags.get("disjoint")))
     n = case["n_small"]
     torch.manual_seed(case["seed"])
     with Tape() as tape:
@@ -1238,7 +1287,7 @@ def run_union(tp, rep, case, lines, posts):
     else:
         rep.count("union:choice-not-applicable")
     # ---- laws on a big sample
-    dom = UnionDomain(a.to_tp(tp), b.to_tp(tp), disjoint=bool(node.flags.get("disjoint")))   # geomgen reports: not exported from tp.domains
+    dom = UnionDomain(build_tp(a, tp), build_tp(b, tp), disjoint=bool(node.flags.get("disjoint")))   # geomgen reports: not exported from tp.domains
     torch.manual_seed(case["seed"] + 1)
     Xs = sample_big(tp, dom, node, case, "dom.n", case["N"])
     g = 6 if dim == 2 else 12
@@ -1330,7 +1379,7 @@ def run_prod(tp, rep, case, lines, posts):
             torch.manual_seed(case["seed"] + 10 * h)
             with Tape() as tape:
                 res = common.call_with_timeout(TIMEOUT, lambda: pdom.sample_random_uniform(n=n, params=params))
-            s_out = res.coordinates["s"].reshape(-1).clone()
+            s_out = res.coordinates[nm("s")].reshape(-1).clone()
             res.as_tensor.add_(1000.0)
             bs = [e[3] for e in log if e[0] == "B" and e[1] == "rand"]
             vols = [e[3].reshape(-1) for e in log if e[0] == tagA and e[1] == "volume"]
@@ -1421,7 +1470,7 @@ def run_prod1(tp, rep, case):
     import warnings
     for _ in range(calls):
         r = dom.sample_random_uniform(n=1)
-        ss.append(float(r.coordinates["s"][0, 0]))
+        ss.append(float(r.coordinates[nm("s")][0, 0]))
     (l,), (u,) = b.pfs[0].eval({}), b.pfs[1].eval({})
     ms = 4
     sb = _bin((np.array(ss) - float(l)) / float(u - l), ms)
@@ -1492,7 +1541,7 @@ def run_lhs(tp, rep, case, lines, posts):
         torch.manual_seed(case["seed"] + call)
         with Tape() as tape:
             res = common.call_with_timeout(TIMEOUT, lambda: sampler.sample_points(params))
-        X32 = torch.cat([res.coordinates[v].reshape(len(res), -1) for v in node.vars()], dim=1).clone()
+        X32 = torch.cat([res.coordinates[nm(v)].reshape(len(res), -1) for v in node.vars()], dim=1).clone()
         res.as_tensor.add_(1000.0)
         if not _lhs_call(tp, rep, case, lines, posts, node, dom, prows, params, n, tape, X32, call):
             return
@@ -1591,12 +1640,12 @@ def run_gauss(tp, rep, case, lines, posts):
     # ---- selection correspondence (small n)
     Proxy = build_proxy_class(tp)
     log = []
-    pdom = Proxy(node.to_tp(tp), log, "D")
+    pdom = Proxy(build_tp(node, tp), log, "D")
     n = case["n_small"]
     torch.manual_seed(case["seed"])
     with Tape() as tape:
         res = common.call_with_timeout(TIMEOUT, lambda: S.GaussianSampler(pdom, n_points=n, mean=mean, std=std).sample_points(params))
-    out = torch.cat([res.coordinates[v].reshape(len(res), -1) for v in node.vars()], dim=1)
+    out = torch.cat([res.coordinates[nm(v)].reshape(len(res), -1) for v in node.vars()], dim=1)
     props = tape.of("normal")
     bits = [e[3] for e in log if e[1] == "contains"]
     if len(out) != n * kk:
@@ -1635,7 +1684,7 @@ def run_gauss(tp, rep, case, lines, posts):
     else:
         rep.count("gauss:selection-not-applicable")
     # ---- conditional normal law on big samples: ONE sampler object called twice (first result overwritten in between)
-    dom = node.to_tp(tp)
+    dom = build_tp(node, tp)
     N = case["N"] // 2
     torch.manual_seed(case["seed"] + 1)
     gs = S.GaussianSampler(dom, n_points=N, mean=mean, std=std)
@@ -1687,7 +1736,7 @@ def run_grid(tp, rep, case, lines, posts):
     prows = prows_of(case)
     params = mk_params(tp, case["params"], prows)
     n, m = case["n"], case["m"]
-    dom = node.to_tp(tp)
+    dom = build_tp(node, tp)
     first = common.call_with_timeout(TIMEOUT, lambda: dom.sample_grid(n=n, params=params))
     first_xs = [float(x) for x in first.as_tensor.reshape(-1).tolist()]
     first.as_tensor.add_(1000.0)                       # the caller owns the result
@@ -1773,6 +1822,9 @@ def run(ctx, rep, cases=None):
                  sample=dict(kind=kind, expression=node.tokens(), parameter_rows=cs["prows"], sizes={k: cs[k] for k in ("n", "N", "api", "n_small", "calls", "m") if k in cs}),
                  kind=kind)
         my_lines, posts = [], []
+        set_naming(cs)
+        if cs.get("names"):
+            rep.count("naming:" + "/".join(sorted(set(cs["names"].values()))))
         _t0 = time.time()
         try:
             if kind == "tape":
